@@ -68,7 +68,22 @@ Definition round_up (roundp : bool) (c : conv) : conv :=
 Definition spacing_prod (n : Z) (sps : Qc) : Qc := rnd53 (Qcz n * sps)%Qc.
 Definition spaced_prod (n nbuckets : Z) (sps : Qc) : Qc := rnd53 (Qcz (wrap32 (n * nbuckets)) * sps)%Qc.
 
+(** tree after `fix:` d13e4f1: spaced_bins = max(ceil(..), size_t(nbuckets-1)*spacing_bins + ps_bins)
+    before the rounding; [nbuckets-1] is a uint32 difference, the rest a 64-bit expression *)
+Definition spaced_floor (n nbuckets sp : Z) : Z := w64 (wrap32 (nbuckets - 1) * sp + n).
+
 Definition main_sizes (n nbuckets : Z) (sps padding : Qc) (roundp : bool) : sizes :=
+  let sp := f2u 32 (Qcz (Qcround (spacing_prod n sps))) in
+  {| spacing_bins := sp;
+     padded_bins := round_up roundp (f2u 64 (Qcz (Qcceil (rnd53 (Qcz n * Qcmax padding 1)%Qc))));
+     spaced_bins := round_up roundp
+                      (conv_bind sp (fun s =>
+                       conv_bind (f2u 64 (Qcz (Qcceil (spaced_prod n nbuckets sps))))
+                                 (fun c => Val (Z.max c (spaced_floor n nbuckets s))))) |}.
+
+(** the pinned tree: spaced_bins = ceil((ps_bins*nbuckets)*spacing_ps) only (kept for the
+    refutations that document the fixed finding) *)
+Definition main_sizes_pinned (n nbuckets : Z) (sps padding : Qc) (roundp : bool) : sizes :=
   {| spacing_bins := f2u 32 (Qcz (Qcround (spacing_prod n sps)));
      padded_bins := round_up roundp (f2u 64 (Qcz (Qcceil (rnd53 (Qcz n * Qcmax padding 1)%Qc))));
      spaced_bins := round_up roundp (f2u 64 (Qcz (Qcceil (spaced_prod n nbuckets sps)))) |}.
@@ -149,6 +164,11 @@ Definition fp_events (n dt : Z) (zb : Qc) (damping : bool) : option (list fp_ev)
             ++ zero_row 4 (wrap32 (n - 2)) ++ zero_row 4 (wrap32 (n - 1)))
     end.
 
+(** main.cpp (tree after `fix:` 5c817d5) builds the cubic map only when
+    [zerobin >= 1 && zerobin <= ps_bins-2] (float comparisons; ps_bins-2 is exact below 2^24) *)
+Definition fp_guard (n : Z) (zb : Qc) : bool :=
+  Qle_bool 1 (this zb) && Qle_bool (this zb) (inject_Z (n - 2)).
+
 (** SourceMap allocates max(memsize,16) table entries; memsize = 1*ysize*dt *)
 Definition fp_table_len (n dt : Z) : Z := Z.max (n * dt) 16.
 
@@ -202,6 +222,10 @@ Definition fptrack1_row (n : Z) (y : Qc) : conv :=
 
 (** ** list front-ends for the extracted driver *)
 Definition conv_code (c : conv) : Z := match c with Val z => z | UB => -1 end.
+Definition sizes_pinned_list (n nbuckets : Z) (sps padding : Qc) (roundp : bool) : list Z :=
+  let s := main_sizes_pinned n nbuckets sps padding roundp in
+  [conv_code (spacing_bins s); conv_code (padded_bins s); conv_code (spaced_bins s);
+   conv_code (wake_nmax nbuckets s)].
 Definition sizes_list (n nbuckets : Z) (sps padding : Qc) (roundp : bool) : list Z :=
   let s := main_sizes n nbuckets sps padding roundp in
   [conv_code (spacing_bins s); conv_code (padded_bins s); conv_code (spaced_bins s);
